@@ -27,5 +27,5 @@ res = kanirun.run_many(crate, sel, jobs=8) if not a.playback else {h["name"]: ka
 for n, r in res.items():
     print(n, r["status"], r["reason"], "checks %d/%d covers %d/%d wall %.0fs solver %.1fs" % (r["checks_failed"], r["checks_total"], r["covers_sat"], r["covers_total"], r["wall"], r["solver_s"]))
     for f in r["failed"][:6]: print("    ", f)
-    if a.v or r["status"] == "undecided": print(r["out_tail"][-1800:])
+    if a.v or r["status"] == "undecided": print(r["out_tail"][-700:])
     if a.playback and r.get("playback"): print(r["playback"])
